@@ -112,3 +112,23 @@ Proof.
     rewrite <- Hsplit in HR. rewrite HR. unfold err_of.
     destruct (rtu_crc (firstn n p) =? be16 c1 c0)%N; reflexivity.
 Qed.
+
+(* ---------- a statement about the two printed functions alone ----------
+   a packet passes the printed CheckRtuCrc exactly when its last two bytes are, big-endian, what the printed RtuCrc
+   returns for the bytes before them *)
+Theorem printed_check_iff_printed_crc (body : list N) (c1 c0 : N) :
+  (2 <= List.length body)%nat -> Forall (fun b => b < 256)%N body -> (c1 < 256)%N -> (c0 < 256)%N ->
+  Z.of_nat (List.length body) < 2 ^ 60 ->
+  exists crc e, run go_modbus_RtuCrc [map Z.of_N body] [] = Some crc /\
+    srun_inplace go_modbus_CheckRtuCrc [map Z.of_N (body ++ [c1; c0])] = Some (0, e, map Z.of_N (body ++ [c1; c0])) /\
+    (e = "" <-> crc = Z.of_N c1 * 256 + Z.of_N c0).
+Proof.
+  intros Hl Hb Hc1 Hc0 Hlen.
+  exists (Z.of_N (rtu_crc body)), (if (rtu_crc body =? be16 c1 c0)%N then "" else "ErrCRC").
+  split; [exact (go_RtuCrc_is_model body Hb)|]. split; [exact (run_long body c1 c0 Hl Hb Hc1 Hc0 Hlen)|].
+  assert (Hbe : Z.of_N (be16 c1 c0) = Z.of_N c1 * 256 + Z.of_N c0).
+  { unfold be16. rewrite !N.mod_small by assumption. lia. }
+  destruct (N.eqb_spec (rtu_crc body) (be16 c1 c0)) as [He|Hne].
+  - split; [intros _; rewrite He; exact Hbe|reflexivity].
+  - split; [discriminate|]. intros Hc. exfalso. apply Hne. apply N2Z.inj. rewrite Hbe. exact Hc.
+Qed.
